@@ -160,9 +160,14 @@ def generated_evlist(ns):
     return items
 
 
-def translator_selfcheck(bdir):
-    """The generated evlists must equal what ovnievents prints. Returns list
-    of discrepancies (strings)."""
+def translator_selfcheck(bdir, consistency=True):
+    """The generated evlists must equal what ovnievents prints, and the
+    handler-facts extractor must have understood every construct.  Returns
+    list of discrepancies (strings).  With `consistency` also the facts that
+    are about the CODE UNDER TEST rather than about the translator (a listed
+    event the dispatch does not recognise, a table row whose category is not
+    routed, a category case without listed events): those are the subject of
+    C18 and must not alarm the checks of other properties."""
     bad = []
     ev = ovnievents_list(bdir)
     for mdir, ns, *_ in MODELS:
@@ -174,11 +179,11 @@ def translator_selfcheck(bdir):
         if sorted(g) != sorted(o):
             d = set(g) ^ set(o)
             bad.append(f"model {mdir}: generated evlist differs from ovnievents: {sorted(d)[:4]}")
-    bad += handlers_selfcheck(bdir, ev)
+    bad += handlers_selfcheck(bdir, ev, consistency)
     return bad
 
 
-def handlers_selfcheck(bdir, ev=None):
+def handlers_selfcheck(bdir, ev=None, consistency=True):
     """The generated handler facts (Generated/Handlers.lean) against the
     generated tables and against what `ovnievents` prints:
       * nothing unresolved; the model character tested by model_<m>_event is
@@ -216,7 +221,7 @@ def handlers_selfcheck(bdir, ev=None):
         rows = {(r[0], r[1]) for r in t["table"] if r[3] != 0}
         # table rows are reachable
         for (c, v) in sorted(rows):
-            if f["directTable"]:
+            if f["directTable"] or not consistency:
                 continue
             k = cases.get(c)
             if k is None or k["callee"] not in f["tableFns"]:
@@ -239,11 +244,11 @@ def handlers_selfcheck(bdir, ev=None):
             return True
         listed = [(ord(s[1]), ord(s[2])) for s, _d in ev.get(mdir, []) if len(s) >= 3]
         miss = [chr(c) + chr(v) for (c, v) in listed if not accepts(c, v)]
-        if miss:
+        if miss and consistency:
             bad.append(f"{who}: ovnievents lists {miss[:6]} which the generated dispatch does not recognise")
         lc = {c for c, _v in listed}
         dead = [chr(c) for c in cases if c not in lc]
-        if dead:
+        if dead and consistency:
             bad.append(f"{who}: category cases {dead} have no event in ovnievents' list")
     return bad
 
